@@ -540,8 +540,8 @@ def _t3(ctx: Context) -> None:
                 al = _alts(l)
                 if r in SUCC and any(_lookup(x) for x in al) and all(_lookup(x) or x in SUCC for x in al):
                     gate_ok += cfg.out_edges(n, ("T",))
-            if t[0] == "cmp" and t[1] == ("NotIn",) and contains(t[2][1], lambda s: s[0] == "await"):
-                gate_ok += cfg.out_edges(n, ("T",))
+            if t[0] == "cmp" and t[1] in (("NotIn",), ("In",)) and contains(t[2][1], lambda s: s[0] == "await"):
+                gate_ok += cfg.out_edges(n, ("T",) if t[1] == ("NotIn",) else ("F",))
     for n in ins:
         ctx.must_pass("C13.T3", cfg, n, "key absent from the error map", gate_ok, desc="CoAP: a listener update only for items without an error entry")
         ctx.must_pass("C13.T3", cfg, n, "paired_read in char.perms", _perm_gate(ctx, cfg, PR), desc="CoAP: a listener update only for readable characteristics")
